@@ -11,6 +11,7 @@ mod c03;
 mod c04;
 mod c05;
 mod c06;
+mod c09;
 mod c10;
 mod c11;
 mod c12;
@@ -21,6 +22,7 @@ mod cat;
 mod lex;
 mod selftest;
 mod sup;
+mod wopts;
 
 use serde_json::{json, Value};
 use std::time::Instant;
@@ -89,6 +91,7 @@ fn registry(property: &str) -> Option<(RunFn, ReplayFn)> {
         "C05" => Some((c05::run_c05, c05::replay_c05)),
         "C06" => Some((c06::run_c06, c06::replay_c06)),
         "C07" => Some((c06::run_c07, c06::replay_c07)),
+        "C09" => Some((c09::run, c09::replay)),
         "C10" => Some((c10::run, c10::replay)),
         "C11" => Some((c11::run, c11::replay)),
         "C12" => Some((c12::run, c12::replay)),
@@ -154,6 +157,7 @@ fn main() {
             let mut rep = Report::default();
             let t0 = Instant::now();
             match wa.property.as_str() {
+                "C09" => c09::run_worker(&ctx, &mut rep, wa.chunk, wa.nchunks),
                 "C10" => c10::run_worker(&ctx, &mut rep, wa.chunk, wa.nchunks),
                 other => {
                     eprintln!("no worker for {other}");
